@@ -827,6 +827,13 @@ class Interp:
             return ("method", obj, a)
         if a in ("copy", "append", "keys", "astype") or a == "T":
             return ("method", obj, a)
+        if a in ("all", "any") and self.dom.is_value(obj) and not self.is_mask(obj) and not isinstance(obj, (bool, int, Fraction)):
+            # x.all() / x.any() of a FLOAT array: the truth value of a float is "non-zero" -- the test is "no entry is exactly 0" /
+            # "some entry is not 0", taken once for ALL the entries of the call
+            e = AnalysisError("%s:%d .%s() of a numeric (not boolean) array" % (func.qualname, node.lineno, a))
+            e.violation = ("POINTWISE-REDUCE", func.qualname, "`%s` (line %d): .%s() of a FLOAT array tests its entries for being exactly zero (truthiness), ONCE for all the entries of the call -- under `not` it reads \"at least one entry is exactly 0\", not \"every entry is\"; the branch it guards is then taken for every face / cell of the call, whatever their own values" % (unparse(node)[:50], node.lineno, a),
+                           "float-truth-reduce", {"C01", "C02", "C03", "C10", "C12", "C13", "C14", "C15", "C16", "C17", "C18", "C11", "C04"})
+            raise e
         raise AnalysisError("%s:%d unsupported attribute .%s" % (func.qualname, node.lineno, a))
 
     def e_List(self, node, env, func, depth):
@@ -1620,6 +1627,12 @@ class Interp:
             c = self.cond_policy[k] if k < len(self.cond_policy) else True
             self.cond_log.append("%s:%d `%s` taken as %s" % (func.qualname, ln, unparse(node)[:60], c))
             return c
+        if base in ("min", "max", "amin", "amax") and len(args) == 1 and isinstance(args[0], (list, tuple)) and len(args[0]) >= 2 and "axis" not in kwargs \
+                and any(self.dom.is_value(x) and not _is_conc(x) for x in args[0]):
+            e = AnalysisError("%s:%d np.%s of several arrays without axis" % (func.qualname, ln, base))
+            e.violation = ("POINTWISE-REDUCE", func.qualname, "`%s` (line %d): np.%s of a tuple of arrays WITHOUT axis=0 is the %s over ALL entries of all of them -- one number for the whole call (np.%s((a, b), axis=0) or np.%simum(a, b) is the entry-wise one): every face / cell gets the global extremum" % (unparse(node)[:60], ln, base, "minimum" if "min" in base else "maximum", base, "min" if "min" in base else "max"),
+                           "global-extremum", {"C01", "C02", "C03", "C10", "C12", "C13", "C14", "C15", "C16", "C17", "C18", "C11", "C04"})
+            raise e
         if base in ("all", "any") and len(args) == 1 and not kwargs and hasattr(d, "unknown_cond"):
             # reduction of a condition over an array of which the analysed value is one entry:
             # decided only when this entry forces it, otherwise an unknown condition (both branches)
